@@ -12,6 +12,9 @@ import Nq.Lemmas.C17Unparse
 import Nq.Lemmas.C17Group
 import Nq.Lemmas.C17Rewrite
 import Nq.Lemmas.C17Inject
+import Nq.Lemmas.C17Clean
+import Nq.Lemmas.C17Roundtrip
+import Nq.Lemmas.C17Hfield
 
 namespace Nq.Props.C17
 open Nq Nq.Quote Nq.Token822 Nq.SmtpAddr Nq.Inject Nq.Spec.Addr Nq.Spec.Lex822 Nq.Lemmas.C17
@@ -136,6 +139,41 @@ theorem C17_smtp_commandline (box host rest : Bytes) (hb : LF ∉ box) (hh : smt
     simp only [splitCmd, dropLastCR, hl, if_true, hd]
     simp [verbMail, argFrom, SP, dropSpaces]
 
+/-- **…and RCPT TO** (audit repair: the twin of `C17_smtp_commandline`; `rcptToLine` was unused).  The line
+qmail-remote sends for a recipient is read by `commands()` as ONE command line with verb `RCPT` and argument
+`TO:<mangled>` — to which `C17_smtp_roundtrip` applies (`TO:` has no `<`). -/
+theorem C17_smtp_commandline_rcpt (box host rest : Bytes) (hb : LF ∉ box) (hh : smtpDomain host = true) :
+    readLine (rcptToLine (box ++ AT :: host) ++ rest)
+        = some (verbRcpt ++ SP :: argTo ++ 60 :: addrmangle (box ++ AT :: host) ++ [62, CR], rest) ∧
+    splitCmd (verbRcpt ++ SP :: argTo ++ 60 :: addrmangle (box ++ AT :: host) ++ [62, CR])
+        = (verbRcpt, argTo ++ 60 :: addrmangle (box ++ AT :: host) ++ [62]) ∧
+    (60 : Byte) ∉ argTo := by
+  have hat := at_not_in_smtpDomain host hh
+  have hm : LF ∉ addrmangle (box ++ AT :: host) := by
+    rw [addrmangle_split box host hat]
+    have h1 : LF ∉ quote box := lf_not_in_quote box hb
+    have h2 : LF ∉ host := by
+      intro hmem
+      have := List.all_eq_true.mp hh LF hmem
+      simp [LF] at this
+    simp [h1, h2, LF, AT]
+  refine ⟨?_, ?_, by decide⟩
+  · have e : rcptToLine (box ++ AT :: host) ++ rest
+        = (verbRcpt ++ SP :: argTo ++ 60 :: addrmangle (box ++ AT :: host) ++ [62, CR]) ++ LF :: rest := by
+      simp [rcptToLine]
+    rw [e]
+    apply readLine_split
+    simp [verbRcpt, argTo, hm, LF, SP, CR]
+  · generalize addrmangle (box ++ AT :: host) = m
+    have hl : (verbRcpt ++ SP :: argTo ++ 60 :: m ++ [62, CR]).getLast? = some CR := by
+      have : verbRcpt ++ SP :: argTo ++ 60 :: m ++ [62, CR] = (verbRcpt ++ SP :: argTo ++ 60 :: m ++ [62]) ++ [CR] := by simp
+      rw [this, List.getLast?_concat]
+    have hd : (verbRcpt ++ SP :: argTo ++ 60 :: m ++ [62, CR]).dropLast = verbRcpt ++ SP :: argTo ++ 60 :: m ++ [62] := by
+      have : verbRcpt ++ SP :: argTo ++ 60 :: m ++ [62, CR] = (verbRcpt ++ SP :: argTo ++ 60 :: m ++ [62]) ++ [CR] := by simp
+      rw [this, List.dropLast_concat]
+    simp only [splitCmd, dropLastCR, hl, if_true, hd]
+    simp [verbRcpt, argTo, SP, dropSpaces]
+
 /-! ### The envelope
 
 Full statement (design): for every address-list AST `L` (mailboxes, `Name <route-addr>`, groups, comments,
@@ -155,9 +193,12 @@ appended to `hrlist`/`hrrlist` are the unquoted `rwgeneric`-rewritten listed mai
 says which list is the envelope, `C17_rewrite_*` what `rwgeneric` does).  Second half: `C17_unparse_parse`
 — for EVERY line length (so whatever the folding macro does) `parse (unparse n ts) = ts` on clean token
 lists, hence the rewritten field (`C17_envelope_field`, third conjunct) is read back as the same TOKENS.
+The rewritten field is proved clean from INPUT-level hypotheses (`C17_rewritten_clean`: good input tokens, clean
+configuration), and the token-level `rwgeneric` is linked to the string-level `Spec.Addr.rewriteMailbox`
+(`C17_rewrite_spec*`, `C17_rewrite_spec_any`, `C17_arg_spec`); `C17_field_end_to_end` assembles TEXT → STRINGS.
 NOT proved (oracle `Ireparse` of the differential harness only): that a second `token822_addrlist` pass over
 those rewritten tokens yields the same ADDRESSES (needs the shape of `rwgeneric`'s output for arbitrary
-addresses), and the link from the token-level `rwgeneric` to the string-level `Spec.Addr.rewriteMailbox`.
+addresses and its idempotence).
 Earlier special cases kept: `C17_envelope_plain` (was `C17_envelope_partial`), `C17_envelope_items`.
 NOTE (deviation from the design text): the callback order, hence the envelope order, is right-to-left
 within a field. -/
@@ -173,6 +214,27 @@ theorem C17_envelope_plain (cb : List Tok → List Tok) (name colon : Tok) (rs :
   have := fold_list cb rs {} ⟨rfl, rfl, rfl⟩ rfl rfl h
   simp only [addrlist, List.drop_succ_cons, List.drop_zero, List.reverse_reverse]
   simpa using this
+
+/-- **Header round trip, through the address-list parser.**  For EVERY local part (any bytes at all, including
+NUL, LF, quotes, backslashes, 8-bit) and every sane domain (dot-atom of `ok[]` bytes, or one domain literal):
+the address quoted by `quote2` and tokenized by `token822_parse` is accepted, `token822_unquote` gives back
+exactly `local@domain`, the tokens have the shape `word(.word)* @ domain`, AND `token822_addrlist` (after any
+two prefix tokens, as in a header field) accepts them as an address list and invokes the callback exactly
+once, with the whole address.  (Audit repair: the former statement stopped at `mailboxShape`, which does not
+imply what `token822_addrlist` needs.) -/
+theorem C17_header_roundtrip_addrlist (loc dom : Bytes) (hd : saneDomain dom = true) :
+    ∃ ts, parse (quote2 (loc ++ AT :: dom)) = some ts ∧ unquote ts = loc ++ AT :: dom ∧ mailboxShape ts = true ∧
+      ∀ (cb : List Tok → List Tok) (name colon : Tok),
+        (addrlist cb (name :: colon :: ts)).ok = true ∧ (addrlist cb (name :: colon :: ts)).got = [cb ts.reverse] := by
+  obtain ⟨ts, h1, h2, h3, h4, h5⟩ := header_roundtrip_full loc dom hd
+  refine ⟨ts, h1, h2, h3, ?_⟩
+  intro cb name colon
+  have := C17_envelope_plain cb name colon [ts.reverse] (by
+    intro m hm
+    simp only [List.mem_cons, List.not_mem_nil, or_false] at hm
+    subst hm
+    exact ⟨by simpa using h4, h5⟩)
+  simpa [bodyRev] using this
 
 /-- what then reaches the envelope: with qmail-inject's callback for To/Cc/Bcc (`rwgeneric`, then
 `rwappend`), the recipient strings are the unquoted rewritten mailboxes -/
@@ -292,22 +354,44 @@ theorem C17_envelope_ast (cb : List Tok → List Tok) (L : List Addr) (cts : Lis
   have := C17_envelope cb (flatAddrs L) cts tr name colon body (validEls_addrs L) (ok_addrs L hL) hok hsep htr htoks hskel
   rwa [mboxes_addrs] at this
 
-/-- **…and into qmail-inject's lists.**  A header field `h` that `token822_parse` accepts and on which
-`token822_addrlist` succeeds with qmail-inject's callback — by `C17_envelope` every legal rendering of a
-grammatical list, with `got = (mboxes els).map (rwgeneric c)` —: if it is a To, Cc, Bcc or Apparently-To
-field the strings appended to `hrlist` are exactly the unquoted rewritten mailboxes (for Resent-To/Cc/Bcc:
-to `hrrlist`), qmail-inject does not die on it, and the text kept for the header, `unparse LINELEN out`,
-is read back by `token822_parse` as the same tokens `out` when these are clean. -/
+/-- **The rewritten field stays clean** (audit repair: the re-parse conjunct of `C17_envelope_field` was
+conditional on a DERIVED value, `out.all cleanTok`, which fails for `To: u@+` although its input tokens are
+clean).  If every token of the field is good — a clean token (atoms are non-empty runs of RFC 822 atom bytes)
+other than the atom `+` alone — and the configuration tokens are clean (`defaulthost`'s good), then every
+token `token822_addrlist` + `rwgeneric` put into `taout` is clean. -/
+theorem C17_rewritten_clean (c : RwCfg) (hc : CleanCfg c) (ts : List Tok) (hts : ts.all goodTok = true) :
+    (addrlist (rwgeneric c) ts).out.all cleanTok = true :=
+  addrlist_clean (rwgeneric c) (rwgeneric_clean c hc) ts hts
+
+/-- Complement: the atom `+` alone as a host (`To: u@+`) has clean input tokens, but `rwplus` leaves an EMPTY
+atom, which `token822_unparse` writes as nothing: the rewritten field is `To: u@.p` and does not parse back to
+`taout` — the hypothesis `goodTok` cannot be weakened to `cleanTok`.  (The envelope address is `u@.p` both times.) -/
+example :
+    let c : RwCfg := { defaulthost := [.at, .atom [104]], defaultdomain := [.dot, .atom [100]], plusdomain := [.dot, .atom [112]] }
+    let ts : List Tok := [.atom [84, 111], .colon, .atom [117], .at, .atom [43]]
+    ts.all cleanTok = true ∧ ts.all goodTok = false ∧ (addrlist (rwgeneric c) ts).out.all cleanTok = false ∧
+    parse (unparse 80 (addrlist (rwgeneric c) ts).out) ≠ some (addrlist (rwgeneric c) ts).out := by decide
+
+/-- **…and into qmail-inject's lists and saved header.**  A header field `h` that `token822_parse` accepts and
+on which `token822_addrlist` succeeds with qmail-inject's callback — by `C17_envelope` every legal rendering of a
+grammatical list, with `got = (mboxes els).map (rwgeneric c)` —: if it is a To, Cc, Bcc or Apparently-To field
+the strings appended to `hrlist` are exactly the unquoted rewritten mailboxes (for Resent-To/Cc/Bcc: to
+`hrrlist`), qmail-inject does not die on it, and the saved header grows by exactly the rewritten text
+`(rewriteField c true h).1` — by nothing for Bcc / Resent-Bcc.  That text is `unparse LINELEN out`, and it is read
+back by `token822_parse` as the same tokens `out` whenever the field's INPUT tokens are good and the
+configuration is clean (`C17_rewritten_clean`; audit repair: formerly conditional on `out` itself being clean). -/
 theorem C17_envelope_field (e : Env) (c : RwCfg) (st : ISt) (h : Bytes) (ts : List Tok) (hd : st.dead = none)
     (hp : parse h = some ts) (hok : (addrlist (rwgeneric c) ts).ok = true) :
     ((hfieldKnown h = Gen.H_TO ∨ hfieldKnown h = Gen.H_CC ∨ hfieldKnown h = Gen.H_BCC ∨ hfieldKnown h = Gen.H_APPARENTLYTO) →
       (doheaderfield e c st h).hrlist = st.hrlist ++ (addrlist (rwgeneric c) ts).got.map addrString ∧
-      (doheaderfield e c st h).hrrlist = st.hrrlist ∧ (doheaderfield e c st h).dead = none) ∧
+      (doheaderfield e c st h).hrrlist = st.hrrlist ∧ (doheaderfield e c st h).dead = none ∧
+      (doheaderfield e c st h).savedh = st.savedh ++ (if hfieldKnown h = Gen.H_BCC then [] else [(rewriteField c true h).1])) ∧
     ((hfieldKnown h = Gen.H_R_TO ∨ hfieldKnown h = Gen.H_R_CC ∨ hfieldKnown h = Gen.H_R_BCC) →
       (doheaderfield e c st h).hrrlist = st.hrrlist ++ (addrlist (rwgeneric c) ts).got.map addrString ∧
-      (doheaderfield e c st h).hrlist = st.hrlist ∧ (doheaderfield e c st h).dead = none) ∧
+      (doheaderfield e c st h).hrlist = st.hrlist ∧ (doheaderfield e c st h).dead = none ∧
+      (doheaderfield e c st h).savedh = st.savedh ++ (if hfieldKnown h = Gen.H_R_BCC then [] else [(rewriteField c true h).1])) ∧
     ((rewriteField c true h).1 = unparse Gen.LINELEN (addrlist (rwgeneric c) ts).out ∧
-      ((addrlist (rwgeneric c) ts).out.all cleanTok = true →
+      (CleanCfg c → ts.all goodTok = true →
         parse (rewriteField c true h).1 = some (addrlist (rwgeneric c) ts).out)) := by
   have hr : ∀ mf, rewriteField c mf h
       = (unparse Gen.LINELEN (addrlist (rwgeneric c) ts).out, (addrlist (rwgeneric c) ts).got, false) := by
@@ -322,9 +406,9 @@ theorem C17_envelope_field (e : Env) (c : RwCfg) (st : ISt) (h : Bytes) (ts : Li
       simp [doheaderfield, hd, hk, hr, Gen.H_BCC, Gen.H_FROM, Gen.H_MESSAGEID, Gen.H_RETURNPATH, fieldClass, fieldDropped,
         Gen.H_TO, Gen.H_CC, Gen.H_APPARENTLYTO, Gen.H_R_BCC, Gen.H_R_TO, Gen.H_R_CC, Gen.H_CONTENTLENGTH]
   · rw [hr]
-  · intro hc
+  · intro hc hts
     rw [hr]
-    exact C17_unparse_parse Gen.LINELEN _ hc
+    exact C17_unparse_parse Gen.LINELEN _ (C17_rewritten_clean c hc ts hts)
 
 /-- **Rewriting, fully qualified host**: `local@host` whose host (rightmost token an atom not ending in
 `+`) has a dot is left alone. -/
@@ -395,76 +479,6 @@ theorem C17_rewrite_strings (c : RwCfg) (s : Bytes) (r pt : List Tok)
     rw [C17_rewrite_plusdomain c s r pt hat hlast h1 h2 h3]
     simp [addrString, unquote_append, unquote, unqTok]
 
-/-- **The whole message: what reaches qmail-queue.**  For EVERY input message and option set with which
-qmail-inject exits 0 (and queues, `-N`): the recipients handed to `qmail_to` are
-`envelopeRecips strategy reciplist st` (spelled out by `C17_modes`), where `reciplist` is the rewritten
-argument list and the header lists are exactly the concatenation, over the header fields `headerbody`
-delivers and in their order, of each field's contribution: for a To/Cc/Bcc/Apparently-To field
-(`hrlist`; Resent-To/Cc/Bcc for `hrrlist`) the unquoted callback results of `token822_addrlist` on it — by
-`C17_envelope` / `C17_envelope_field` the rewritten listed mailboxes — and nothing for any other field. -/
-theorem C17_envelope_inject (e : Env) (a : Args) (inp : Bytes) (dd dh pd : List Tok)
-    (hdd : parse ([46] ++ e.defaultdomain) = some dd) (hdh : parse ([AT] ++ e.defaulthost) = some dh)
-    (hpd : parse ([46] ++ e.plusdomain) = some pd)
-    (hex : (inject e a inp).exit = 0) (hq : a.queue = true) :
-    ∃ (reciplist : List Bytes) (st : ISt),
-      (inject e a inp).recips = (envelopeRecips (effStrategy a) reciplist st).map cstr ∧
-      st.hrlist = (headerbody inp).fields.flatMap (hrContribution ⟨dh, dd, pd⟩ 1) ∧
-      st.hrrlist = (headerbody inp).fields.flatMap (hrContribution ⟨dh, dd, pd⟩ 2) ∧
-      (effStrategy a ≠ 3 → mapOpt (argAddress ⟨dh, dd, pd⟩) a.recips = some reciplist) ∧
-      (effStrategy a = 3 → reciplist = []) := by
-  unfold inject at hex ⊢
-  simp only [hdd, hdh, hpd] at hex ⊢
-  generalize hc : ({ defaulthost := dh, defaultdomain := dd, plusdomain := pd } : RwCfg) = c at hex ⊢
-  split at hex
-  · simp at hex
-  · rename_i sender0 heq
-    generalize hrl : (if effStrategy a ≠ 3 then mapOpt (argAddress c) a.recips else some []) = rl at hex ⊢
-    cases rl with
-    | none => simp at hex
-    | some reciplist =>
-      simp only [] at hex ⊢
-      have hdead0 := header_dead e c (headerbody inp).fields { sender := sender0 } (Or.inl rfl)
-      generalize hst0 : List.foldl (doheaderfield e c) { sender := sender0 } (headerbody inp).fields = st0 at hex hdead0 ⊢
-      cases hd0 : st0.dead with
-      | some x =>
-        simp only [hd0] at hex
-        rcases hdead0 with h | h
-        · rw [hd0] at h; simp at h
-        · rw [hd0] at h; simp only [Option.some.injEq] at h; omega
-      | none =>
-        simp only [hd0] at hex ⊢
-        have hl := header_lists e c (headerbody inp).fields { sender := sender0 } (by rw [hst0]; exact hd0)
-        rw [hst0] at hl
-        have hdr := defaultReturnPath_facts e c st0
-        generalize hst1 : (if st0.sender.isNone = true then defaultReturnPath e c st0 else st0) = st1 at hex ⊢
-        have f1 : st1.hrlist = st0.hrlist ∧ st1.hrrlist = st0.hrrlist ∧ (st1.dead = none ∨ st1.dead = some 100) := by
-          rw [← hst1]
-          split
-          · refine ⟨hdr.1, hdr.2.1, ?_⟩
-            rcases hdr.2.2.2 with h | h
-            · left; rw [h, hd0]
-            · right; exact h
-          · exact ⟨rfl, rfl, Or.inl hd0⟩
-        cases hd1 : st1.dead with
-        | some x =>
-          simp only [hd1] at hex
-          rcases f1.2.2 with h | h
-          · rw [hd1] at h; simp at h
-          · rw [hd1] at h; simp only [Option.some.injEq] at h; omega
-        | none =>
-          simp only [hd1] at hex ⊢
-          cases hg : generatedFields e c st1 with
-          | none => simp [hg] at hex
-          | some gen =>
-            simp only [hg, hq, if_true]
-            refine ⟨reciplist, st1, rfl, ?_, ?_, ?_, ?_⟩
-            · rw [f1.1, hl.2.1]; simp
-            · rw [f1.2.1, hl.2.2]; simp
-            · intro hne; simpa [hne] using hrl
-            · intro heq
-              simp only [heq, ne_eq, not_true_eq_false, if_false, Option.some.injEq] at hrl
-              exact hrl.symm
-
 /-- **The token-level rewriting IS the documented string-level rewriting** (`Spec.Addr.rewriteMailbox`, written
 from qmail-header(5) / qmail-inject(8) independently of the token model; it is what the harness oracle
 compares the real envelope with).  For a mailbox `local@host` — local part ANY non-empty token list not
@@ -494,13 +508,19 @@ theorem C17_rewrite_spec (c : RwCfg) (sp : RwSpec) (ls h0 pt : List Tok) (s : By
   rw [h1, h2]
   simp [rewriteMailbox]
 
-/-- **Source routes are stripped** ("strips all source routes", qmail-header(5)): `@route:local@host` (the
-route has no colon of its own; `local@host` is not itself a route and its host ends in an atom) is
-rewritten exactly as `local@host` is — to which `C17_rewrite_spec` applies.  (The one exception in the C
-code, an address ending in `@[]`, is left completely alone, route included.) -/
-theorem C17_rewrite_route (c : RwCfg) (rt inner r : List Tok) (s : Bytes)
-    (hrt : Tok.colon ∉ rt) (hin : inner.reverse = .atom s :: r) (hnr : inner.head? ≠ some .at) :
+/-- **Source routes are stripped** ("strips all source routes", qmail-header(5)): `@route:inner` (the route has
+no colon of its own; `inner` is not empty, is not itself a route, and is not an address ending in `@[]`) is
+rewritten exactly as `inner` is — to which `C17_rewrite_spec_any` applies.  (Audit repair: generalised from
+"`inner` ends in an atom" so that `<@r:u@[1.2.3.4]>` is covered.  The one exception in the C code, an address
+ending in `@[]`, is left completely alone, route included — complement `example` below.) -/
+theorem C17_rewrite_route (c : RwCfg) (rt inner : List Tok)
+    (hrt : Tok.colon ∉ rt) (hne : inner ≠ []) (hnr : inner.head? ≠ some .at)
+    (hnl : ∀ y, inner.reverse ≠ .literal [] :: .at :: y) :
     rwgeneric c ((.at :: rt ++ .colon :: inner).reverse) = rwgeneric c inner.reverse := by
+  obtain ⟨t, r, hin⟩ : ∃ t r, inner.reverse = t :: r := by
+    cases h : inner.reverse with
+    | nil => simp at h; exact absurd h hne
+    | cons t r => exact ⟨t, r, rfl⟩
   have hdrop : ∀ (x : List Tok), Tok.colon ∉ x → dropThroughColon (x ++ .colon :: inner) = inner := by
     intro x hx
     induction x with
@@ -508,22 +528,37 @@ theorem C17_rewrite_route (c : RwCfg) (rt inner r : List Tok) (s : Bytes)
     | cons t x ih =>
       have ht : t ≠ .colon := fun e => hx (by simp [e])
       simp [dropThroughColon, ht, ih (fun e => hx (by simp [e]))]
-  have hlast1 : (Tok.atom s :: r).getLast? ≠ some .at := by
+  have hlast1 : (t :: r).getLast? ≠ some .at := by
     rw [← hin, List.getLast?_reverse]; exact hnr
-  have e : (Tok.at :: rt ++ .colon :: inner).reverse = .atom s :: (r ++ (.colon :: rt.reverse ++ [.at])) := by
+  have e : (Tok.at :: rt ++ .colon :: inner).reverse = t :: (r ++ (.colon :: rt.reverse ++ [.at])) := by
     simp [hin]
-  have hlast2 : (Tok.atom s :: (r ++ (.colon :: rt.reverse ++ [.at]))).getLast? = some .at := by
-    have : Tok.atom s :: (r ++ (.colon :: rt.reverse ++ [.at])) = (Tok.atom s :: (r ++ .colon :: rt.reverse)) ++ [.at] := by simp
+  have hlast2 : (t :: (r ++ (.colon :: rt.reverse ++ [.at]))).getLast? = some .at := by
+    have : t :: (r ++ (.colon :: rt.reverse ++ [.at])) = (t :: (r ++ .colon :: rt.reverse)) ++ [.at] := by simp
     rw [this, List.getLast?_concat]
-  have hroute : rwroute (Tok.atom s :: (r ++ (.colon :: rt.reverse ++ [.at]))) = .atom s :: r := by
+  have hroute : rwroute (t :: (r ++ (.colon :: rt.reverse ++ [.at]))) = t :: r := by
     simp only [rwroute, hlast2, if_true]
     rw [← e, List.reverse_reverse]
     have : Tok.at :: rt ++ .colon :: inner = (Tok.at :: rt) ++ .colon :: inner := by simp
     rw [this, hdrop (.at :: rt) (by simpa using hrt), hin]
-  have hself : rwroute (Tok.atom s :: r) = .atom s :: r := by simp [rwroute, hlast1]
-  rw [e, hin]
-  simp only [rwgeneric, hroute, hself]
+  have hself : rwroute (t :: r) = t :: r := by simp [rwroute, hlast1]
+  have hnl2 : ∀ y, t :: (r ++ (.colon :: rt.reverse ++ [.at])) ≠ .literal [] :: .at :: y := by
+    intro y hy
+    simp only [List.cons.injEq] at hy
+    obtain ⟨ht, hr⟩ := hy
+    cases r with
+    | nil => simp at hr
+    | cons u r' =>
+      simp only [List.cons_append, List.cons.injEq] at hr
+      exact hnl r' (by rw [hin, ht, hr.1])
+  rw [e, hin, rwgeneric_body c _ (by simp) hnl2, rwgeneric_body c (t :: r) (by simp) (by rw [← hin]; exact hnl), hroute, hself]
 
+/-- Complement: `<@r:u@[]>` keeps its route (the C code returns before `rwroute`). -/
+example : rwgeneric { defaulthost := [.at, .atom [104]], defaultdomain := [.dot, .atom [100]], plusdomain := [.dot, .atom [112]] }
+      ([Tok.at, .atom [114], .colon, .atom [117], .at, .literal []].reverse)
+    = [Tok.at, .atom [114], .colon, .atom [117], .at, .literal []].reverse := by decide
+/-- `<@r:u@[1.2.3.4]>` (literal host): covered now -/
+example : addrString (rwgeneric { defaulthost := [.at, .atom [104]], defaultdomain := [.dot, .atom [100]], plusdomain := [.dot, .atom [112]] }
+      ([Tok.at, .atom [114], .colon, .atom [117], .at, .literal [49]].reverse)) = [117, 64, 91, 49, 93] := by decide
 /-- …a domain-literal host is left alone… -/
 theorem C17_rewrite_spec_literal (c : RwCfg) (sp : RwSpec) (ls : List Tok) (x : Bytes)
     (hne : ls ≠ []) (hroute : ls.head? ≠ some .at) :
@@ -588,6 +623,379 @@ theorem C17_control_tokens (d : Bytes) (hd : d.all okChar = true) :
   · unfold parse; rw [prun_cons]; simp only [pstep, stepTop_at, h]; simp
   · simp [unquote, unqTok, unquote_dotAtomsAux, AT]
 
+/-- **The atom bytes of the theorems are exactly RFC 822's** (audit repair: `atomByte` is defined through the
+tables regenerated from token822.c, so a mutated `atomok` would have moved the hypothesis of `C17_parse_render`
+along with the code).  `rfc822Atom` is written from the RFC: CHAR except specials, SPACE and CTLs. -/
+theorem C17_atomByte_rfc822 (c : Byte) : atomByte c = rfc822Atom c := by
+  simpa using atomByte_rfc822_all c
+
+/-- **`hfield_known` is the independent field-name matcher plus a table lookup** (audit repair: links the
+model's `hfieldKnown`, transcribed from hfield.c, to `Spec.Addr.fieldName`, the matcher the driver's Bcc oracle
+uses).  For EVERY line: the H_* number is the position in `hname[]` of the line's name — the bytes before the
+first colon, trailing SP/TAB removed, lower-cased — or 0. -/
+theorem C17_hfield_known_spec (line : Bytes) : hfieldKnown line = knownField line :=
+  hfieldKnown_spec line
+
+/-- the table positions of the names the envelope and Bcc theorems speak about -/
+theorem C17_hfield_names :
+    rcptFields.map (fun n => knownIndexFrom n 1 (Gen.hname.drop 1)) = [Gen.H_TO, Gen.H_CC, Gen.H_BCC, Gen.H_APPARENTLYTO] ∧
+    resentRcptFields.map (fun n => knownIndexFrom n 1 (Gen.hname.drop 1)) = [Gen.H_R_TO, Gen.H_R_CC, Gen.H_R_BCC] ∧
+    resentFields.map (fun n => knownIndexFrom n 1 (Gen.hname.drop 1)) = resentTypes ∧
+    hiddenFields.map (fun n => knownIndexFrom n 1 (Gen.hname.drop 1))
+      = [Gen.H_BCC, Gen.H_R_BCC, Gen.H_RETURNPATH, Gen.H_CONTENTLENGTH] := by decide
+/-- **Sane control values give the configuration the rewriting theorems assume** (audit repair:
+`C17_control_tokens` did not deliver the `defaulthost` shape `C17_rewrite_spec_nohost` needs — it fails for
+`dh.`).  For `defaultdomain`, `plusdomain` of `ok[]` bytes and a `defaulthost` of `ok[]` bytes that is not
+empty and does not end in a dot, the token lists `getcontrols` stores satisfy `CfgSpec`. -/
+theorem C17_control_cfg (ddv dhv pdv : Bytes) (dd dh pd : List Tok)
+    (h1 : ddv.all okChar = true) (h2 : dhv.all okChar = true) (h3 : pdv.all okChar = true)
+    (hne : dhv ≠ []) (hl : dhv.getLast? ≠ some DOT)
+    (hdd : parse ([46] ++ ddv) = some dd) (hdh : parse ([AT] ++ dhv) = some dh) (hpd : parse ([46] ++ pdv) = some pd) :
+    CfgSpec ⟨dh, dd, pd⟩ ⟨dhv, ddv, pdv⟩ := by
+  obtain ⟨⟨pt1, p1, _, p3⟩, _⟩ := C17_control_tokens ddv h1
+  obtain ⟨⟨pt3, q1, q2, q3⟩, _⟩ := C17_control_tokens pdv h3
+  obtain ⟨h0, s, e, hh, hu⟩ := host_tokens dhv h2 hne hl
+  have r1 : dd = .dot :: pt1 := by
+    have : parse (DOT :: ddv) = some dd := hdd
+    rw [p1] at this; exact (Option.some.inj this).symm
+  have r3 : pd = .dot :: pt3 := by
+    have : parse (DOT :: pdv) = some pd := hpd
+    rw [q1] at this; exact (Option.some.inj this).symm
+  have r2 : dh = .at :: (h0 ++ [Tok.atom s]) := by
+    have hp := (plain_run dhv h2 [] [] (Or.inl rfl) (by simp [prun, pfinish])).1
+    simp only [List.append_nil] at hp
+    have : parse (AT :: dhv) = some dh := hdh
+    unfold parse at this
+    rw [prun_cons] at this
+    simp only [pstep, stepTop_at, hp] at this
+    rw [← e]
+    exact (Option.some.inj this).symm
+  exact ⟨by rw [r1]; exact p3, ⟨pt3, r3, q2, by rw [r3]; exact q3⟩, ⟨h0, s, r2, hh, hu⟩⟩
+
+/-- **One statement for every mailbox shape** (`specShape`: lone box name; `local@dot-atom-host`;
+`local@[literal]`; local part any non-empty token list that is not a route): the string qmail-inject appends to
+its recipient list for the callback argument `m` is `specString sp m` — the documented string-level rewriting
+`Spec.Addr.rewriteMailbox` of the unquoted local part and host. -/
+theorem C17_rewrite_spec_any (c : RwCfg) (sp : RwSpec) (hc : CfgSpec c sp) (m : List Tok) (hs : specShape m = true) :
+    addrString (rwgeneric c m) = specString sp m := by
+  obtain ⟨hdd, ⟨pt, hpd, hpt, hpu⟩, ⟨d0, s0, hdh, hdhh, hdhu⟩⟩ := hc
+  unfold specShape at hs
+  unfold specString
+  cases hsp : splitAtTok m with
+  | none =>
+    simp only [hsp, Bool.and_eq_true, Bool.not_eq_true', List.isEmpty_eq_false_iff, bne_iff_ne, ne_eq] at hs ⊢
+    have hno := splitAtTok_none m hsp
+    have := C17_rewrite_spec_nohost c sp m.reverse d0 pt s0 hdh hdhh hdhu (by simpa using hs.1) (by simpa using hno)
+      (by rw [List.getLast?_reverse]; exact hs.2) hdd hpd hpt hpu
+    simpa using this
+  | some p =>
+    obtain ⟨hr, lr⟩ := p
+    simp only [hsp, Bool.and_eq_true, Bool.not_eq_true', List.isEmpty_eq_false_iff, bne_iff_ne, ne_eq] at hs ⊢
+    obtain ⟨⟨hlne, hlr⟩, hhost⟩ := hs
+    obtain ⟨hm, _⟩ := splitAtTok_some m hr lr hsp
+    have hne : lr.reverse ≠ [] := by simpa using hlne
+    have hroute : lr.reverse.head? ≠ some .at := by rw [List.head?_reverse]; exact hlr
+    cases hr with
+    | nil => simp at hhost
+    | cons t hr' =>
+      cases t with
+      | literal x =>
+        cases hr' with
+        | nil =>
+          have := C17_rewrite_spec_literal c sp lr.reverse x hne hroute
+          rw [hm]
+          simpa [unquote, unqTok] using this
+        | cons u v => simp at hhost
+      | atom s =>
+        have hh : (hr'.reverse ++ [Tok.atom s]).all hostTok = true := by
+          simp only [List.all_cons, Bool.and_eq_true] at hhost
+          simp only [List.all_append, List.all_reverse, List.all_cons, List.all_nil, Bool.and_true, Bool.and_eq_true]
+          exact ⟨hhost.2, hhost.1⟩
+        have := C17_rewrite_spec c sp lr.reverse hr'.reverse pt s hh hne hroute hdd hpd hpt hpu
+        rw [hm]
+        simpa using this
+      | _ => simp at hhost
+
+/-- **Command-line recipients** (`dorecip`: `quote2`, `token822_parse`, `rwgeneric`, `token822_unquote`) **= the
+documented rewriting** (audit repair).  For EVERY local part (any bytes) and every sane host name (`ok[]` bytes,
+non-empty, not ending in a dot): the recipient `local@host` given on the command line enters the envelope as
+`rewriteMailbox sp local (some host)`. -/
+theorem C17_arg_spec (c : RwCfg) (sp : RwSpec) (hc : CfgSpec c sp) (loc dom : Bytes)
+    (hd : dom.all okChar = true) (hne : dom ≠ []) (hl : dom.getLast? ≠ some DOT) :
+    argAddress c (loc ++ AT :: dom) = some (rewriteMailbox sp loc (some dom)) := by
+  obtain ⟨hdd, ⟨pt, hpd, hpt, hpu⟩, _⟩ := hc
+  obtain ⟨ls, h0, s, hp, hu, hlne, hlh, hh, hhu⟩ := arg_tokens loc dom hd hne hl
+  unfold argAddress
+  rw [hp]
+  simp only []
+  have e : (ls ++ Tok.at :: (h0 ++ [Tok.atom s])).reverse = (h0 ++ [Tok.atom s]).reverse ++ .at :: ls.reverse := by simp
+  rw [e, C17_rewrite_spec c sp ls h0 pt s hh hlne hlh hdd hpd hpt hpu, hu, hhu]
+/-- **The whole message: what reaches qmail-queue** (audit repair: the former statement quantified
+existentially over a state `st` whose `seen` component nothing constrained, so "`hrrlist` if a Resent- field was
+seen" was not proved; there is no existential any more).  For EVERY input message and option set with which
+qmail-inject exits 0 (and queues, `-N`): every command-line recipient parses (unless the strategy is `-h`), and
+the recipients handed to `qmail_to` are, in this order, the rewritten arguments (`-a`, `-H`, default with
+arguments) followed (`-h`, `-H`, default without arguments) by the concatenation over the header fields
+`headerbody` delivers, in their order, of each field's contribution — the contributions of the Resent-To/Cc/Bcc
+fields if ANY of the fields is one of the eight Resent- fields (`isResentField`), else those of the
+To/Cc/Bcc/Apparently-To fields.  A field's contribution (`hrContribution`) is the unquoted callback results of
+`token822_addrlist` on it — by `C17_field_end_to_end` the documented rewriting of the listed mailboxes. -/
+theorem C17_envelope_inject (e : Env) (a : Args) (inp : Bytes) (dd dh pd : List Tok)
+    (hdd : parse ([46] ++ e.defaultdomain) = some dd) (hdh : parse ([AT] ++ e.defaulthost) = some dh)
+    (hpd : parse ([46] ++ e.plusdomain) = some pd)
+    (hex : (inject e a inp).exit = 0) (hq : a.queue = true) :
+    (effStrategy a ≠ 3 → ∀ r ∈ a.recips, (argAddress ⟨dh, dd, pd⟩ r).isSome = true) ∧
+    (inject e a inp).recips =
+      ((if effStrategy a = 3 then [] else a.recips.filterMap (argAddress ⟨dh, dd, pd⟩)) ++
+       (if effStrategy a = 2 then []
+        else if (headerbody inp).fields.any isResentField then (headerbody inp).fields.flatMap (hrContribution ⟨dh, dd, pd⟩ 2)
+        else (headerbody inp).fields.flatMap (hrContribution ⟨dh, dd, pd⟩ 1))).map cstr := by
+  unfold inject at hex ⊢
+  simp only [hdd, hdh, hpd] at hex ⊢
+  generalize hc : ({ defaulthost := dh, defaultdomain := dd, plusdomain := pd } : RwCfg) = c at hex ⊢
+  split at hex
+  · simp at hex
+  · rename_i sender0 heq
+    generalize hrl : (if effStrategy a ≠ 3 then mapOpt (argAddress c) a.recips else some []) = rl at hex ⊢
+    cases rl with
+    | none => simp at hex
+    | some reciplist =>
+      simp only [] at hex ⊢
+      have hdead0 := header_dead e c (headerbody inp).fields { sender := sender0 } (Or.inl rfl)
+      generalize hst0 : List.foldl (doheaderfield e c) { sender := sender0 } (headerbody inp).fields = st0 at hex hdead0 ⊢
+      cases hd0 : st0.dead with
+      | some x =>
+        simp only [hd0] at hex
+        rcases hdead0 with h | h
+        · rw [hd0] at h; simp at h
+        · rw [hd0] at h; simp only [Option.some.injEq] at h; omega
+      | none =>
+        simp only [hd0] at hex ⊢
+        have hl := header_lists e c (headerbody inp).fields { sender := sender0 } (by rw [hst0]; exact hd0)
+        have hres := header_resent e c (headerbody inp).fields { sender := sender0 } (by rw [hst0]; exact hd0)
+        rw [hst0] at hl hres
+        have hres0 : isResent ({ sender := sender0 } : ISt) = false := by rw [isResent_eq]; simp
+        rw [hres0, Bool.false_or] at hres
+        have hdr := defaultReturnPath_facts e c st0
+        generalize hst1 : (if st0.sender.isNone = true then defaultReturnPath e c st0 else st0) = st1 at hex ⊢
+        have f1 : st1.hrlist = st0.hrlist ∧ st1.hrrlist = st0.hrrlist ∧ st1.seen = st0.seen ∧ (st1.dead = none ∨ st1.dead = some 100) := by
+          rw [← hst1]
+          split
+          · refine ⟨hdr.1, hdr.2.1, hdr.2.2.1, ?_⟩
+            rcases hdr.2.2.2 with h | h
+            · left; rw [h, hd0]
+            · right; exact h
+          · exact ⟨rfl, rfl, rfl, Or.inl hd0⟩
+        cases hd1 : st1.dead with
+        | some x =>
+          simp only [hd1] at hex
+          rcases f1.2.2.2 with h | h
+          · rw [hd1] at h; simp at h
+          · rw [hd1] at h; simp only [Option.some.injEq] at h; omega
+        | none =>
+          simp only [hd1] at hex ⊢
+          cases hg : generatedFields e c st1 with
+          | none => simp [hg] at hex
+          | some gen =>
+            simp only [hq, if_true]
+            have hr1 : isResent st1 = (headerbody inp).fields.any isResentField := by
+              rw [isResent_seen f1.2.2.1, hres]
+            have hL1 : st1.hrlist = (headerbody inp).fields.flatMap (hrContribution c 1) := by
+              rw [f1.1, hl.2.1]; simp
+            have hL2 : st1.hrrlist = (headerbody inp).fields.flatMap (hrContribution c 2) := by
+              rw [f1.2.1, hl.2.2]; simp
+            by_cases h3 : effStrategy a = 3
+            · simp only [h3, ne_eq, not_true_eq_false, if_false, Option.some.injEq] at hrl
+              subst hrl
+              refine ⟨fun h => absurd h3 h, ?_⟩
+              simp [envelopeRecips, h3, hr1, hL1, hL2]
+            · have hrl' : mapOpt (argAddress c) a.recips = some reciplist := by simpa [h3] using hrl
+              obtain ⟨e1, e2⟩ := mapOpt_some (argAddress c) a.recips reciplist hrl'
+              refine ⟨fun _ => e2, ?_⟩
+              subst e1
+              by_cases h2 : effStrategy a = 2
+              · simp [envelopeRecips, h2]
+              · simp [envelopeRecips, h2, h3, hr1, hL1, hL2]
+
+/-- "one of the eight Resent- fields", "a To/Cc/Bcc/Apparently-To field", "a Resent-To/Cc/Bcc field", "a dropped
+field" — by NAME: the model's tests on `hfield_known`'s number are the independent matcher's tests on the field's
+own name (`Spec.Addr.fieldName`: bytes before the first colon, trailing blanks removed, lower-cased). -/
+theorem C17_field_types_by_name (h : Bytes) :
+    isResentField h = nameIn resentFields h ∧
+    ((fieldClass (hfieldKnown h)).1 = 1 ↔ nameIn rcptFields h = true) ∧
+    ((fieldClass (hfieldKnown h)).1 = 2 ↔ nameIn resentRcptFields h = true) ∧
+    fieldDropped (hfieldKnown h) = nameIn hiddenFields h :=
+  ⟨isResentField_name h, rcpt_class_name h, resent_class_name h, dropped_name h⟩
+
+/-- **From header TEXT to envelope STRINGS** (audit repair: the end-to-end claim, assembled).  `h` is the text of
+one header field: ANY legal rendering (`C17_parse_render`: any quoting, white space, folding, comments anywhere
+in the body) of `name : address-list`, where the address list is the tree `L` (`C17_envelope_ast`) whose
+mailboxes have one of the shapes of `specShape`, the field's own name (independent matcher) is To, Cc, Bcc or
+Apparently-To (`cls = 1`; Resent-To, Resent-Cc, Resent-Bcc for `cls = 2`), and the control values are sane
+(`CfgSpec`, delivered by `C17_control_cfg`).  Then what the field contributes to qmail-inject's recipient list
+`hrlist` (`hrrlist`) — by `C17_envelope_inject` a segment of the envelope — is exactly the list of the tree's
+mailboxes, right to left, each rewritten by the DOCUMENTED string-level rule `Spec.Addr.rewriteMailbox`
+(`specString`); and it contributes nothing to the other list. -/
+theorem C17_field_end_to_end (c : RwCfg) (sp : RwSpec) (hc : CfgSpec c sp) (cls : Nat) (L : List Addr)
+    (cts : List (Bytes × CTok)) (tr : Bytes) (name colon : Tok) (body : List Tok) (hL : ∀ a ∈ L, a.ok)
+    (hok : cts.all (fun p => p.2.ok) = true) (hsep : sepsOk false cts = true) (htr : tr.all isWs = true)
+    (htoks : cts.map (fun p => p.2.tok) = name :: colon :: body)
+    (hskel : body.filter notComment = (((flatAddrs L).flatMap El.toks).reverse).filter notComment)
+    (hshape : ∀ m ∈ L.flatMap Addr.mailboxes, specShape m = true)
+    (hname : (cls = 1 ∧ nameIn rcptFields (render cts tr) = true) ∨ (cls = 2 ∧ nameIn resentRcptFields (render cts tr) = true)) :
+    hrContribution c cls (render cts tr) = (L.flatMap Addr.mailboxes).map (specString sp) ∧
+    hrContribution c (3 - cls) (render cts tr) = [] := by
+  obtain ⟨ts, hp, hk, hg⟩ := C17_envelope_ast (rwgeneric c) L cts tr name colon body hL hok hsep htr htoks hskel
+  have hcls : (fieldClass (hfieldKnown (render cts tr))).1 = cls := by
+    rcases hname with ⟨rfl, hn⟩ | ⟨rfl, hn⟩
+    · exact (rcpt_class_name _).mpr hn
+    · exact (resent_class_name _).mpr hn
+  have hr : rewriteField c true (render cts tr)
+      = (unparse Gen.LINELEN (addrlist (rwgeneric c) ts).out, (addrlist (rwgeneric c) ts).got, false) := by
+    simp [rewriteField, hp, hk]
+  constructor
+  · unfold hrContribution
+    rw [if_pos hcls, hr]
+    simp only []
+    rw [hg, List.map_map]
+    apply List.map_congr_left
+    intro m hm
+    exact C17_rewrite_spec_any c sp hc m (hshape m hm)
+  · unfold hrContribution
+    rw [if_neg]
+    rw [hcls]
+    rcases hname with ⟨rfl, _⟩ | ⟨rfl, _⟩ <;> decide
+
+/-- **Bcc removal, whole message** (audit repair: the former `C17_bcc` was one model step).  For EVERY message
+and option set with which qmail-inject exits 0, the output message is
+`[Return-Path line if -n] ++ generated fields ++ saved header ++ body`, where the saved header is the
+concatenation, over the header fields `headerbody` delivers and in their order, of each field's
+`savedContribution` — and a field whose own NAME (independent matcher `Spec.Addr.fieldName`) is Bcc, Resent-Bcc,
+Return-Path or Content-Length contributes NOTHING, while (`C17_envelope_inject`) a Bcc / Resent-Bcc field still
+contributes its addresses to the envelope.  The generated part consists of at most a Date, a Message-ID, a From
+and a `Cc: recipient list not shown: ;` field (with `Resent-` in front of each for a resent message).
+PARTIAL with respect to the full claim "`fieldNames msg` (every header line of the final TEXT, as an independent
+reader splits it) contains no hidden name": not proved is that no line INSIDE a kept or rewritten field, inside
+the generated From field or of the body is read as a header line named Bcc (needs the line structure of
+`token822_unparse`'s output for arbitrary token contents, e.g. a quoted string holding LF); that part is the
+oracle `Ihidden` of the harness, evaluated on every produced message. -/
+theorem C17_bcc_message_partial (e : Env) (a : Args) (inp : Bytes) (dd dh pd : List Tok)
+    (hdd : parse ([46] ++ e.defaultdomain) = some dd) (hdh : parse ([AT] ++ e.defaulthost) = some dh)
+    (hpd : parse ([46] ++ e.plusdomain) = some pd)
+    (hex : (inject e a inp).exit = 0) :
+    (∃ rp d m f cc, (a.queue = true → rp = []) ∧
+      (inject e a inp).msg = rp ++ (d ++ m ++ f ++ cc) ++
+        ((headerbody inp).fields.flatMap (savedContribution e ⟨dh, dd, pd⟩)).flatten ++ (headerbody inp).body.flatten ∧
+      (d = [] ∨ d = e.date ∨ d = str "Resent-" ++ e.date) ∧
+      (m = [] ∨ m = msgid e ∨ m = str "Resent-" ++ msgid e) ∧
+      (f = [] ∨ ∃ t, defaultFrom e ⟨dh, dd, pd⟩ = some t ∧ (f = t ∨ f = str "Resent-" ++ t)) ∧
+      (cc = [] ∨ cc = str "Cc: recipient list not shown: ;\n" ∨ cc = str "Resent-Cc: recipient list not shown: ;\n")) ∧
+    (∀ h, nameIn hiddenFields h = true → savedContribution e ⟨dh, dd, pd⟩ h = []) := by
+  constructor
+  · unfold inject at hex ⊢
+    simp only [hdd, hdh, hpd] at hex ⊢
+    generalize hc : ({ defaulthost := dh, defaultdomain := dd, plusdomain := pd } : RwCfg) = c at hex ⊢
+    split at hex
+    · simp at hex
+    · rename_i sender0 heq
+      generalize hrl : (if effStrategy a ≠ 3 then mapOpt (argAddress c) a.recips else some []) = rl at hex ⊢
+      cases rl with
+      | none => simp at hex
+      | some reciplist =>
+        simp only [] at hex ⊢
+        generalize hst0 : List.foldl (doheaderfield e c) { sender := sender0 } (headerbody inp).fields = st0 at hex ⊢
+        cases hd0 : st0.dead with
+        | some x =>
+          simp only [hd0] at hex
+          have hdead0 := header_dead e c (headerbody inp).fields { sender := sender0 } (Or.inl rfl)
+          rw [hst0, hd0] at hdead0
+          rcases hdead0 with h | h
+          · simp at h
+          · simp only [Option.some.injEq] at h; omega
+        | none =>
+          simp only [hd0] at hex ⊢
+          have hs := header_savedh e c (headerbody inp).fields { sender := sender0 } (by rw [hst0]; exact hd0)
+          rw [hst0] at hs
+          generalize hst1 : (if st0.sender.isNone = true then defaultReturnPath e c st0 else st0) = st1 at hex ⊢
+          have f1 : st1.savedh = st0.savedh := by
+            rw [← hst1]; split
+            · exact defaultReturnPath_savedh e c st0
+            · rfl
+          cases hd1 : st1.dead with
+          | some x =>
+            simp only [hd1] at hex
+            have hdr := (defaultReturnPath_facts e c st0).2.2.2
+            have : st1.dead = none ∨ st1.dead = some 100 := by
+              rw [← hst1]; split
+              · rcases hdr with h | h
+                · left; rw [h, hd0]
+                · right; exact h
+              · left; exact hd0
+            rw [hd1] at this
+            rcases this with h | h
+            · simp at h
+            · simp only [Option.some.injEq] at h; omega
+          | none =>
+            simp only [hd1] at hex ⊢
+            cases hg : generatedFields e c st1 with
+            | none => simp [hg] at hex
+            | some gen =>
+              simp only []
+              have hsv : st1.savedh = (headerbody inp).fields.flatMap (savedContribution e c) := by
+                rw [f1, hs]; simp
+              have hgen : ∃ d m f cc, gen = d ++ m ++ f ++ cc ∧
+                  (d = [] ∨ d = e.date ∨ d = str "Resent-" ++ e.date) ∧
+                  (m = [] ∨ m = msgid e ∨ m = str "Resent-" ++ msgid e) ∧
+                  (f = [] ∨ ∃ t, defaultFrom e c = some t ∧ (f = t ∨ f = str "Resent-" ++ t)) ∧
+                  (cc = [] ∨ cc = str "Cc: recipient list not shown: ;\n" ∨ cc = str "Resent-Cc: recipient list not shown: ;\n") := by
+                unfold generatedFields at hg
+                split at hg
+                · cases hs1 : seenAny st1 [Gen.H_R_FROM] with
+                  | true =>
+                    simp only [hs1, Bool.not_true, Bool.false_eq_true, if_false, Option.map_some, Option.some.injEq] at hg
+                    refine ⟨_, _, [], _, hg.symm, ?_, ?_, Or.inl rfl, ?_⟩
+                    · split <;> simp
+                    · split <;> simp
+                    · split <;> simp
+                  | false =>
+                    simp only [hs1, Bool.not_false, if_true] at hg
+                    cases hdf : defaultFrom e c with
+                    | none => simp [hdf] at hg
+                    | some t =>
+                      simp only [hdf, Option.map_some, Option.some.injEq] at hg
+                      refine ⟨_, _, str "Resent-" ++ t, _, hg.symm, ?_, ?_, Or.inr ⟨t, rfl, Or.inr rfl⟩, ?_⟩
+                      · split <;> simp
+                      · split <;> simp
+                      · split <;> simp
+                · cases hs1 : seenAny st1 [Gen.H_FROM] with
+                  | true =>
+                    simp only [hs1, Bool.not_true, Bool.false_eq_true, if_false, Option.map_some, Option.some.injEq] at hg
+                    refine ⟨_, _, [], _, hg.symm, ?_, ?_, Or.inl rfl, ?_⟩
+                    · split <;> simp
+                    · split <;> simp
+                    · split <;> simp
+                  | false =>
+                    simp only [hs1, Bool.not_false, if_true] at hg
+                    cases hdf : defaultFrom e c with
+                    | none => simp [hdf] at hg
+                    | some t =>
+                      simp only [hdf, Option.map_some, Option.some.injEq] at hg
+                      refine ⟨_, _, t, _, hg.symm, ?_, ?_, Or.inr ⟨t, rfl, Or.inl rfl⟩, ?_⟩
+                      · split <;> simp
+                      · split <;> simp
+                      · split <;> simp
+              obtain ⟨d, m, f, cc, eg, g1, g2, g3, g4⟩ := hgen
+              by_cases hq : a.queue = true
+              · refine ⟨[], d, m, f, cc, fun _ => rfl, ?_, g1, g2, g3, g4⟩
+                simp [hq, eg, hsv]
+              · refine ⟨str "Return-Path: <" ++ quote2 (cstr (st1.sender.getD [])) ++ str ">\n", d, m, f, cc, fun h => absurd h hq, ?_, g1, g2, g3, g4⟩
+                simp only [hq, Bool.false_eq_true, if_false, eg, hsv]
+  · intro h hn
+    have := dropped_name h
+    rw [hn] at this
+    unfold savedContribution
+    simp only [this, if_true]
+    split <;> rfl
 /-- **White space and folding between tokens are ignored** by the tokenizer: any run of SP, TAB, CR, LF
 (so also a fold `LF SP`) at token level disappears, and such a byte ends an atom (`atomok` is false for
 it), so `a@b ,` LF SP `c` tokenizes like `a@b,c`. -/
@@ -611,7 +1019,7 @@ theorem C17_parse_blanks (ws rest : Bytes) (h : ws.all isWs = true) :
     simp only [hw, Bool.not_true, Bool.false_or, Bool.and_eq_true, Bool.not_eq_true'] at hf
     exact hf.2
 
-/-- **Bcc removal.**  A `Bcc` (resp. `Resent-Bcc`) field never reaches the saved header — the output
+/-- **Bcc removal, one field** (the whole-message statement is `C17_bcc_message_partial`).  A `Bcc` (resp. `Resent-Bcc`) field never reaches the saved header — the output
 message is `generated fields ++ savedh ++ body` — while the addresses its callback collected are
 appended to `hrlist` (resp. `hrrlist`), the lists the envelope is taken from. -/
 theorem C17_bcc (e : Env) (c : RwCfg) (st : ISt) (h : Bytes) (hd : st.dead = none) :
@@ -760,5 +1168,35 @@ example : ([] ++ [Tok.atom [104]]).all hostTok = true := by decide
 example : addrString (rwgeneric { defaulthost := [.at, .atom [104]], defaultdomain := [.dot, .atom [100]], plusdomain := [.dot, .atom [112]] }
       [.atom [104], .at, .atom [117]]) = [117, 64, 104, 46, 100] := by decide
 example : rewriteMailbox { defaulthost := [104], defaultdomain := [100], plusdomain := [112] } [117] (some [104]) = [117, 64, 104, 46, 100] := by decide
+
+/-! non-vacuity of the audit-repair theorems -/
+
+/-- the configuration `defaulthost = h`, `defaultdomain = d`, `plusdomain = p` meets `CfgSpec` and `CleanCfg` -/
+def exCfg : RwCfg := { defaulthost := [.at, .atom [104]], defaultdomain := [.dot, .atom [100]], plusdomain := [.dot, .atom [112]] }
+def exSp : RwSpec := { defaulthost := [104], defaultdomain := [100], plusdomain := [112] }
+example : CfgSpec exCfg exSp :=
+  ⟨by decide, ⟨[.atom [112]], rfl, by decide, by decide⟩, ⟨[], [104], rfl, by decide, by decide⟩⟩
+example : CleanCfg exCfg := ⟨by decide, by decide, by decide⟩
+/-- `Resent-To:x` is a Resent- field, by number and by name; `Bcc :x` is hidden by name -/
+example : isResentField [82, 101, 115, 101, 110, 116, 45, 84, 111, 58, 120, 10] = true ∧
+    nameIn resentFields [82, 101, 115, 101, 110, 116, 45, 84, 111, 58, 120, 10] = true ∧
+    nameIn hiddenFields [66, 99, 99, 32, 58, 120, 10] = true ∧ hfieldKnown [66, 99, 99, 32, 58, 120, 10] = Gen.H_BCC := by decide
+/-- the field `To: a@b,` LF SP `c@x+` LF as a legal rendering of the tree (right to left) `c@x+` (plus domain), `a@b` (default domain) -/
+def exCts2 : List (Bytes × CTok) :=
+  [([], .atom [84, 111]), ([], .special 58), ([32], .atom [97]), ([], .special 64), ([], .atom [98]), ([], .special 44),
+   ([10, 32], .atom [99]), ([], .special 64), ([], .atom [120, 43])]
+def exTree2 : List Addr := [.mbox (.plain [.atom [120, 43], .at, .atom [99]]), .mbox (.plain [.atom [98], .at, .atom [97]])]
+example : exCts2.all (fun p => p.2.ok) = true ∧ sepsOk false exCts2 = true := by decide
+example : nameIn rcptFields (render exCts2 [10]) = true := by decide
+example : ∀ m ∈ exTree2.flatMap Addr.mailboxes, specShape m = true := by decide
+example : (exTree2.flatMap Addr.mailboxes).map (specString exSp) = [[99, 64, 120, 46, 112], [97, 64, 98, 46, 100]] := by decide
+example : hrContribution exCfg 1 (render exCts2 [10]) = [[99, 64, 120, 46, 112], [97, 64, 98, 46, 100]] := by decide
+/-- good tokens: `To: a@b+` -/
+example : ([.atom [84, 111], .colon, .atom [97], .at, .atom [98, 43]] : List Tok).all goodTok = true := by decide
+/-- a command-line recipient `a b@x` (local part needs quoting): `a b@x.d` -/
+example : argAddress exCfg [97, 32, 98, 64, 120] = some [97, 32, 98, 64, 120, 46, 100] := by decide
+example : rewriteMailbox exSp [97, 32, 98] (some [120]) = [97, 32, 98, 64, 120, 46, 100] := by decide
+/-- `RCPT TO:<a@x>` CR LF -/
+example : rcptToLine [97, 64, 120] = [82, 67, 80, 84, 32, 84, 79, 58, 60, 97, 64, 120, 62, 13, 10] := by decide
 
 end Nq.Props.C17
